@@ -95,7 +95,8 @@ def run(ctx):
         batch.add_def(i, "lo", "input_spec_w false $nodes $bound [] $eps $sel", "ispec")
         real_t = (f"(mk_ispec {names(spec['required'])} {names(spec['optional'])} "
                   f"{c_list([c_pair(c_pos(N(k)), names(v)) for k, v in spec['entry'].items()])} {pdl.c_dictval(N, spec['bound'])})")
-        batch.add(i, 101, "either_spec $lo", "$hi", real_t)
+        # (check 101 accepts any PER-TARGET choice between the two extremes: InputSpec.some_scope_spec)
+        batch.add(i, 101, "some_scope_spec $nodes $bound [] $eps", "$sel", real_t)
         # ---------------- ORACLE
         R, O = set(spec["required"]), set(spec["optional"])
         E = {p for ps in spec["entry"].values() for p in ps}
@@ -189,6 +190,8 @@ def run(ctx):
 def derived_after_select_run_part(ctx):
     """A graph is RUN with a run-time select, then graphs are derived from it (bind / unbind) and run with the same select: the
     derived graph's own contract applies - all its required inputs are sufficient, each of them is necessary."""
+    import warnings
+    warnings.simplefilter("ignore")
     from hypergraph import Graph, SyncRunner
     from hypergraph.exceptions import MissingInputError
     from hypergraph.nodes import FunctionNode
